@@ -662,3 +662,19 @@ def field_templates(ctx, rid):
                  "else{Extend::extend(P1,T[#0](TypePath::to_syn_type(P0.type_path,P2.alloc_crate_path)))}")
         expect_term(ctx, rid, "fields/box-wrap", bw[0]["sp"], _norm(ctx, bw[0]).term(bw[0]["body"]), exp_b,
                     "`<alloc>::boxed::Box<ty>` iff is_boxed, else `ty`; ty converted with the settings' alloc path")
+
+
+# -------------------------------------------------------------------- module ----
+def module_template(ctx, rid):
+    """K4: `pub mod #name { use super::#root; #(#modules)* #(#types)* }` over BTreeMap::values in key order"""
+    fns = [b for b in q.fn_by_suffix(ctx.P, "ToTokensWithSettings>::to_tokens", "scale_typegen") if "module_ir::ModuleIR as" in b["path"]]
+    fn = q.anchor_fn(ctx, rid, "impl ToTokensWithSettings for ModuleIR", fns)
+    if fn is None:
+        return
+    t = _norm(ctx, fn).term(fn["body"])
+    M = "Iterator::map(BTreeMap::values(P0.children),|1|{ToTokensWithSettings::to_token_stream(C1_0,P2)})"
+    Ty = "Iterator::map(BTreeMap::values(P0.types),|1|{ToTokensWithSettings::to_token_stream(C1_0.1,P2)})"
+    exps = ["Extend::extend(P1,T[pub mod #0 { use super :: #1 ; #( #2 )* #( #3 )* }](P0.name,P0.root_mod,%s,%s))" % (M, Ty),
+            "Extend::extend(P1,T[pub mod #0 { use super :: #1 ; #( #2 )* #( #3 )* }](P0.name,P0.root_mod,%s,%s))" % (Ty, M)]
+    expect_term(ctx, rid, "module-template", fn["sp"], t, exps,
+                "module = `pub mod name { use super::root; child modules; types }`, both lists iterated as BTreeMap::values (key order)")
